@@ -7,7 +7,7 @@ use crate::visitor::{
     ident_provider::{IdentKind, IdentProvider},
 };
 use swc::atoms::JsWord;
-use swc_common::{util::take::Take, SyntaxContext, DUMMY_SP};
+use swc_common::{util::take::Take, Span, Spanned, SyntaxContext};
 use swc_ecma_ast::*;
 use swc_ecma_visit::{Visit, VisitMut, VisitMutWith};
 
@@ -20,12 +20,15 @@ struct OptChainVisitor<'a> {
     pub ident_provider: &'a mut dyn IdentProvider,
     pub csi_methods: &'a CsiMethods,
     pub found: bool,
+    // position of the chain in the input: everything built while lowering it belongs there
+    pub span: Span,
 }
 
 impl OptChainVisitor<'_> {
     pub fn default<'a>(
         ident_provider: &'a mut dyn IdentProvider,
         csi_methods: &'a CsiMethods,
+        span: Span,
     ) -> OptChainVisitor<'a> {
         OptChainVisitor {
             assignment: None,
@@ -34,6 +37,7 @@ impl OptChainVisitor<'_> {
             ident_provider,
             csi_methods,
             found: false,
+            span,
         }
     }
 
@@ -48,7 +52,7 @@ impl OptChainVisitor<'_> {
              */
             if let Expr::Member(mut member_expr) = *call_expr.callee.clone() {
                 let mut member_obj_arguments = Vec::new();
-                let span = DUMMY_SP;
+                let span = self.span;
                 let member_obj_ident_opt = self.ident_provider.get_ident_used_in_assignation(
                     &member_expr.obj.clone(),
                     &mut self.assignments,
@@ -59,7 +63,7 @@ impl OptChainVisitor<'_> {
 
                 if let Some(member_obj_ident) = member_obj_ident_opt {
                     let new_member_expr = MemberExpr {
-                        span: DUMMY_SP,
+                        span: self.span,
                         obj: Box::new(Expr::Ident(member_obj_ident.clone())),
                         prop: member_expr.prop.clone(),
                     };
@@ -78,13 +82,13 @@ impl OptChainVisitor<'_> {
                     if let Some(member_expr_ident) = member_expr_ident_opt {
                         self.new_ident = Some(member_expr_ident.clone());
                         let call_ident = Ident {
-                            span: DUMMY_SP,
+                            span: self.span,
                             sym: "call".into(),
                             optional: false,
                             ctxt: SyntaxContext::empty(),
                         };
                         let callee = MemberExpr {
-                            span: DUMMY_SP,
+                            span: self.span,
                             obj: Box::new(Expr::Ident(member_expr_ident)),
                             prop: MemberProp::Ident(IdentName::from(call_ident)),
                         };
@@ -98,7 +102,7 @@ impl OptChainVisitor<'_> {
                             args.push(arg)
                         }
                         let call_expr_new = CallExpr {
-                            span: DUMMY_SP,
+                            span: self.span,
                             callee: Callee::Expr(Box::new(Expr::Member(callee))),
                             args,
                             ctxt: call_expr.ctxt,
@@ -110,7 +114,7 @@ impl OptChainVisitor<'_> {
                 }
             } else {
                 let mut arguments = Vec::new();
-                let span = DUMMY_SP;
+                let span = self.span;
                 let new_ident_opt = self.ident_provider.get_ident_used_in_assignation(
                     &call_expr.callee.clone(),
                     &mut self.assignments,
@@ -124,7 +128,7 @@ impl OptChainVisitor<'_> {
                         self.assignment = Some(fist_arg.clone());
                         self.new_ident = Some(new_ident.clone());
                         let call_expr_new = CallExpr {
-                            span: DUMMY_SP,
+                            span: self.span,
                             callee: Callee::Expr(Box::new(Expr::Ident(new_ident))),
                             args: call_expr.args.clone(),
                             ctxt: call_expr.ctxt,
@@ -137,7 +141,7 @@ impl OptChainVisitor<'_> {
             }
         } else {
             return Some(CallExpr {
-                span: DUMMY_SP,
+                span: self.span,
                 callee: call_expr.callee.clone().into(),
                 args: call_expr.args.clone(),
                 ctxt: call_expr.ctxt,
@@ -154,7 +158,7 @@ impl OptChainVisitor<'_> {
     ) -> Option<MemberExpr> {
         if optional {
             let mut arguments = Vec::new();
-            let span = DUMMY_SP;
+            let span = self.span;
             let new_ident_opt = self.ident_provider.get_ident_used_in_assignation(
                 &member_expr.obj.clone(),
                 &mut self.assignments,
@@ -167,7 +171,7 @@ impl OptChainVisitor<'_> {
                 self.new_ident = Some(new_ident.clone());
 
                 let member_expr_new = MemberExpr {
-                    span: DUMMY_SP,
+                    span: self.span,
                     obj: Box::new(Expr::Ident(new_ident)),
                     prop: member_expr.prop.clone(),
                 };
@@ -269,7 +273,10 @@ impl OptChainTransform {
         csi_methods: &CsiMethods,
         ident_provider: &mut dyn IdentProvider,
     ) -> TransformResult<Expr> {
-        let visitor = &mut OptChainVisitor::default(ident_provider, csi_methods);
+        // positions in the lowered code resolve to the chain's own place in the input (a dummy span
+        // leaves them to whatever token happens to precede them, possibly on another line)
+        let chain_span = opt_chain_expr.span();
+        let visitor = &mut OptChainVisitor::default(ident_provider, csi_methods, chain_span);
         opt_chain_expr.visit_mut_with(visitor);
 
         // If the optional chaining contains a method to rewrite, we should modify the expression
@@ -283,21 +290,21 @@ impl OptChainTransform {
         let new_ident = visitor.new_ident.as_mut().unwrap();
 
         let test = Expr::Bin(BinExpr {
-            span: DUMMY_SP,
+            span: chain_span,
             op: BinaryOp::EqEq,
             left: Box::new(Expr::Ident(new_ident.clone())),
-            right: Box::new(Expr::Lit(Lit::Null(Null { span: DUMMY_SP }))),
+            right: Box::new(Expr::Lit(Lit::Null(Null { span: chain_span }))),
         });
 
         let cons = Ident {
-            span: DUMMY_SP,
+            span: chain_span,
             sym: JsWord::from("undefined"),
             optional: false,
             ctxt: SyntaxContext::empty(),
         };
 
         let cond = CondExpr {
-            span: DUMMY_SP,
+            span: chain_span,
             test: Box::new(test),
             cons: Box::new(Expr::Ident(cons)),
             alt: Box::new(opt_chain_expr.clone()),
@@ -306,9 +313,9 @@ impl OptChainTransform {
         visitor.assignments.push(Expr::Cond(cond));
 
         let expr = Expr::Paren(ParenExpr {
-            span: DUMMY_SP,
+            span: chain_span,
             expr: Box::new(Expr::Seq(SeqExpr {
-                span: DUMMY_SP,
+                span: chain_span,
                 exprs: visitor
                     .assignments
                     .iter_mut()
